@@ -28,7 +28,7 @@ ASSUMPTIONS = ["a crash is process death immediately before a file-system step; 
                "interleavings are sampled with injected delays between real processes, not enumerated",
                "the network is replaced by an in-memory fake of the GitHub listing in the download scenarios only"]
 MIN_MONITOR_EVALS = {"crash-point": 60, "post-crash-load": 120, "cache-files-byte-identical": 60, "schedule": 10,
-                     "lock-interval-pairs": 50, "lock-timeout": 2, "refresh-skipped": 2,
+                     "lock-interval-pairs": 50, "lock-timeout": 2, "refresh-skipped": 4,
                      "failed-refresh": 10}
 WATCHDOG_S = {"quick": 1200, "thorough": 7200}
 JOBS = {"quick": 16, "thorough": 16}
@@ -101,24 +101,31 @@ class FakeNet:
             raise urllib.error.URLError("unknown url " + url)
         return [dict(type="file", name=n, sha=self._sha(self.files[n]), download_url="fake://" + n) for n in sorted(names)]
 
-    def install(self):
+    def install(self, fail_at=None):
+        """Replace the network at the lowest boundary hed uses (urllib.request.urlopen), so that hed's own request,
+        download-to-temporary-file and move-into-the-cache code all run. fail_at: the k-th request raises URLError."""
         import io as _io
-        import tempfile
-        from hed.schema import hed_cache
+        import urllib.request
+        import urllib.error
         net = self
 
-        def make_url_request(url, try_authenticate=True):
+        def urlopen(request, *args, **kwargs):
+            url = getattr(request, "full_url", request)
             net.requests += 1
+            if fail_at is not None and net.requests == fail_at:
+                raise urllib.error.URLError("injected network failure")
+            if url.startswith("fake://"):
+                return _io.BytesIO(net.files[url[len("fake://"):]])
+            from hed.schema import hed_cache as _hc
+            if url == _hc.LIBRARY_DATA_URL:
+                return _io.BytesIO(json.dumps({"": {"id_range": [10000, 40000]}, "score": {"id_range": [40401, 41000]}}).encode())
             return _io.BytesIO(json.dumps(net.listing(url)).encode())
+        self._saved = urllib.request.urlopen
+        urllib.request.urlopen = urlopen
 
-        def url_to_file(url):
-            net.requests += 1
-            name = url[len("fake://"):]
-            with tempfile.NamedTemporaryFile(suffix=".xml", delete=False, mode="wb") as f:
-                f.write(net.files[name])
-                return f.name
-        hed_cache.make_url_request = make_url_request
-        hed_cache.url_to_file = url_to_file
+    def uninstall(self):
+        import urllib.request
+        urllib.request.urlopen = self._saved
 
 
 def populate_fn(entry, cache):
@@ -484,7 +491,6 @@ def run_timeout_refresh(shard, rec):
         shutil.rmtree(folder, ignore_errors=True)
         os.makedirs(folder)
         net = FakeNet()
-        saved = (hed_cache.make_url_request, hed_cache.url_to_file)
         try:
             net.install()
             first = hed_cache.cache_xml_versions(cache_folder=folder)
@@ -492,12 +498,33 @@ def run_timeout_refresh(shard, rec):
             second = hed_cache.cache_xml_versions(cache_folder=folder)
             n2 = net.requests - n1
         finally:
-            hed_cache.make_url_request, hed_cache.url_to_file = saved
+            net.uninstall()
         if first != 0 or n1 == 0:
             rec.violation("first cache refresh did not run", dict(case, first=first, requests=n1))
         if second != -1 or n2 != 0:
             rec.violation("a refresh attempted inside the refresh interval performed work", dict(case, second=second, requests=n2))
         check_cache_files(folder, rec, case)
+        # the library id data are refreshed from the network the same way: once per interval
+        shutil.rmtree(folder, ignore_errors=True)
+        os.makedirs(folder)
+        net = FakeNet()
+        rec.mon("refresh-skipped")
+        try:
+            net.install()
+            hed_cache.get_library_data.cache_clear()
+            d1 = hed_cache.get_library_data(f"zzunknownliba{attempt}", folder)
+            m1 = net.requests
+            d2 = hed_cache.get_library_data(f"zzunknownlibb{attempt}", folder)
+            m2 = net.requests - m1
+        finally:
+            net.uninstall()
+            hed_cache.get_library_data.cache_clear()
+        if m1 != 1 or d1 != {}:
+            rec.violation("library data for an unknown library were not looked up once on the network",
+                          dict(kind="refresh-library-data", requests=m1))
+        if m2 != 0 or d2 != {}:
+            rec.violation("a library-data refresh attempted inside the refresh interval performed work",
+                          dict(kind="refresh-library-data", requests=m2))
     rec.bulk(4, 4)
     shutil.rmtree(base, ignore_errors=True)
 
@@ -531,17 +558,7 @@ def run_failed_refresh(shard, rec):
                 os.close(r)
                 from hed.schema import hed_cache
                 use_cache(cache)
-                net.install()
-                inner_req, inner_file = hed_cache.make_url_request, hed_cache.url_to_file
-
-                def failing(inner):
-                    def f(*a, **k):
-                        if fail_at is not None and net.requests + 1 == fail_at:
-                            net.requests += 1
-                            raise urllib.error.URLError("injected network failure")
-                        return inner(*a, **k)
-                    return f
-                hed_cache.make_url_request, hed_cache.url_to_file = failing(inner_req), failing(inner_file)
+                net.install(fail_at=fail_at)
                 try:
                     out = f"returned:{hed_cache.cache_xml_versions(cache_folder=cache)}"
                 except Exception as ex:  # noqa
